@@ -15,6 +15,7 @@ def make_inputs(tier, seed, wd):
     """valid files with assorted versions / parameter sets; returns list of dict(path, data, doc, version)"""
     n = 60 if tier == 'quick' else 500
     cases = []
+    sib_of = {}
     for i in range(n):
         r = gen.seeded(seed, 'C18in', i)
         pre = gen.gen_preamble(r, nbps=r.choice([1, 1, 2, 3]))
@@ -25,6 +26,33 @@ def make_inputs(tier, seed, wd):
             if r.random() < 0.5:
                 bp['cp'] = gen.gen_cp(r, 'full')
                 bp['cp']['host'] = ('probe-%d' % r.randrange(3)).encode().hex()
+        if i % 3 == 2 and cases:
+            # sibling capture: same configuration as an earlier input except for ONE member (another probe / tick rate / filter ...)
+            import copy
+            orig = r.randrange(max(0, len(cases) - 6), len(cases))
+            sib_of[i] = orig
+            pre = copy.deepcopy(cases[orig]['preamble'])
+            bp = r.choice(pre['bps'])
+            what = r.choice(['host', 'host', 'gen', 'filter', 'tps', 'sflags', 'vlan', 'qrh', 'opcodes', 'promisc', 'samp'])
+            if what in ('host', 'gen', 'filter', 'vlan', 'promisc') and 'cp' not in bp:
+                bp['cp'] = gen.gen_cp(r, 'full')
+                cases[orig]['preamble']['bps'][pre['bps'].index(bp)]['cp'] = copy.deepcopy(bp['cp'])
+            if what == 'promisc':
+                bp['cp']['promisc'] = not bp['cp'].get('promisc', False)
+            if what == 'samp':
+                bp['samp'] = b'other sampling'.hex()
+            if what in ('host', 'gen', 'filter'):
+                bp.setdefault('cp', {})[what] = ('other-%d' % r.randrange(100)).encode().hex()
+            elif what == 'tps':
+                bp['tps'] = r.choice([x for x in (1, 10, 1000, 10 ** 6, 10 ** 9) if x != bp['tps']])
+            elif what == 'sflags':
+                bp['sflags'] = (bp.get('sflags', 0) + 1) % 8
+            elif what == 'vlan':
+                bp.setdefault('cp', {})['vlan'] = [r.randrange(4096)]
+            elif what == 'qrh':
+                bp['qrh'] ^= 1 << r.randrange(18)
+            else:
+                bp['opcodes'] = list(bp['opcodes']) + [r.randrange(7, 16)]
         cases.append(gen.gen_history(r, 'in%04d' % i, preamble=pre, comp='none', kind='name', rotations=False, direct=(i % 4 == 0), addbp=False,
                                      nops=r.choice([3, 10, 30, 80]), weights=dict(setactive=10)))
     er = ExportRun(PROP, cases, 'c18in', need_lib_read=False)
@@ -39,10 +67,35 @@ def make_inputs(tier, seed, wd):
                     with open(p, 'wb') as f:
                         f.write(o.data)
                     d = pc['docs'][o.id]
-                    inputs.append(dict(path=p, data=o.data, doc=d, version=(d.preamble['major'], d.preamble['minor'], d.preamble['private']), kind='valid', nblocks=len(d.blocks)))
+                    inputs.append(dict(path=p, data=o.data, doc=d, version=(d.preamble['major'], d.preamble['minor'], d.preamble['private']), kind='valid', nblocks=len(d.blocks),
+                                       case_no=int(pc['case']['id'][2:]), sib_of=sib_of.get(int(pc['case']['id'][2:]))))
+                    # the same data as another producer may legitimately encode it: members in another order, indefinite lengths,
+                    # block-parameters-index omitted where it is 0 (RFC 8618: ".default 0")
+                    rr = gen.seeded(seed, 'C18rw', pc['case']['id'])
+                    if rr.random() < 0.5:
+                        try:
+                            new = reencode(rr, o.data)
+                            d2 = cdns_schema.parse(new)
+                            nb = lambda bs: [dict(b, bpi=b['bpi'] or 0) for b in bs]
+                            if nb(d2.blocks) == nb(d.blocks) and d2.preamble == d.preamble:
+                                p2 = os.path.join(wd, pc['case']['id'] + '_re.cdns')
+                                with open(p2, 'wb') as f:
+                                    f.write(new)
+                                inputs.append(dict(path=p2, data=new, doc=d2, version=inputs[-1]['version'], kind='valid', nblocks=len(d2.blocks), reencoded=True))
+                        except (cbor.CborError, cdns_schema.SchemaError):
+                            pass
     finally:
         er.close()
     return inputs, er.violations
+
+
+def reencode(r, data):
+    from vlib import rewrite
+    doc = cdns_schema.parse(data)
+    for n in cbor.walk(doc.root):
+        if n.major == cbor.MAP and n.ann == 'BlockPreamble' and r.random() < 0.7:
+            n.value = [(k, v) for k, v in n.value if not (k.value == 1 and v.value == 0)]
+    return rewrite.rewrite(r, cbor.encode(doc.root), ['permute_maps', 'indef_container'], p=0.6)[0]
 
 
 def header_end(doc):
@@ -61,10 +114,21 @@ def make_tuples(tier, seed, inputs, wd):
         r = gen.seeded(seed, 'C18t', i)
         k = r.choice([1, 2, 2, 3, 4, 6])
         members = []
-        for j in range(k):
+        sibs = [x for x in inputs if x.get('sib_of') is not None]
+        if sibs and i % 3 == 0:
+            # a capture and its sibling (same configuration but for one member) merged together
+            sb = r.choice(sibs)
+            og = [x for x in inputs if x.get('case_no') == sb['sib_of'] and not x.get('reencoded')]
+            if og and og[0]['version'] == sb['version']:
+                members = [og[0], sb] if r.random() < 0.5 else [sb, og[0]]
+        for j in range(k - len(members)):
             x = r.random()
             if x < 0.62:
-                members.append(r.choice(inputs))
+                if members and r.random() < 0.5 and members[-1]['kind'] == 'valid':
+                    k0 = inputs.index(members[-1]) if members[-1] in inputs else 0
+                    members.append(inputs[max(0, min(len(inputs) - 1, k0 + r.randrange(-4, 5)))])
+                else:
+                    members.append(r.choice(inputs))
             elif x < 0.70 and members:
                 members.append(members[r.randrange(len(members))])          # the same file listed twice
             elif x < 0.78:
